@@ -24,9 +24,39 @@ MODEL_CLASSES = ('Database', 'Table', 'Column', 'Index', 'Enum', 'EnumItem', 'No
 
 
 # ------------------------------------------------------------------------------------------ old()
+def _same_result(a, b):
+    """`x is f(...)` with f an abstract name for "what the funnel returns": natively every evaluation of f builds
+    a new object, so identity is replaced by equality of everything observable (for a Database: its view and its
+    configuration)"""
+    if a is b:
+        return True
+    from pydbml.database import Database
+    if isinstance(a, Database) and isinstance(b, Database):
+        from spec.model import view
+        return (view(a) == view(b) and a.sql_renderer is b.sql_renderer and a.dbml_renderer is b.dbml_renderer
+                and a.allow_properties == b.allow_properties)
+    return False
+
+
 class _OldRewriter(ast.NodeTransformer):
-    def __init__(self):
+    def __init__(self, globs=None):
         self.olds: List[ast.expr] = []
+        self.globs = globs or {}
+
+    def visit_Compare(self, node):
+        node = self.generic_visit(node)
+        if len(node.ops) == 1 and isinstance(node.ops[0], (ast.Is, ast.IsNot)):
+            def abstract_obj_call(e):
+                if isinstance(e, ast.Call) and isinstance(e.func, ast.Name):
+                    f = self.globs.get(e.func.id)
+                    ab = getattr(f, '_pyvc_abstract', None)
+                    return ab is not None and ab[1] not in ('str', 'int', 'bool', 'float')
+                return False
+            if abstract_obj_call(node.left) or abstract_obj_call(node.comparators[0]):
+                call = ast.Call(func=ast.Name(id='__same_result__', ctx=ast.Load()),
+                                args=[node.left, node.comparators[0]], keywords=[])
+                return call if isinstance(node.ops[0], ast.Is) else ast.UnaryOp(op=ast.Not(), operand=call)
+        return node
 
     def visit_Call(self, node):
         if isinstance(node.func, ast.Name) and node.func.id == 'old' and len(node.args) == 1:
@@ -46,7 +76,7 @@ def compile_clause(fn):
         return _COMPILED[key]
     node = copy.deepcopy(func_ast(fn))
     names = [a.arg for a in node.args.args]
-    rw = _OldRewriter()
+    rw = _OldRewriter(fn.__globals__)
     node = rw.visit(node)
     pre_names = [n for n in names if n != 'result']
     pres = []
@@ -61,7 +91,9 @@ def compile_clause(fn):
     mod = ast.Module(body=[node], type_ignores=[])
     ast.fix_missing_locations(mod)
     ns: Dict[str, Any] = {}
-    exec(compile(mod, f'<clause {fn.__qualname__}>', 'exec'), fn.__globals__, ns)
+    g = dict(fn.__globals__)
+    g['__same_result__'] = _same_result
+    exec(compile(mod, f'<clause {fn.__qualname__}>', 'exec'), g, ns)
     post = ns[node.name]
     _COMPILED[key] = (pres, post, names, pre_names)
     return _COMPILED[key]
